@@ -21,7 +21,7 @@ func c15Alphabet(full bool, binops []string) *term.Alphabet {
 			{K: term.KVar, Name: "a", Ty: X}, {K: term.KVar, Name: "b", Ty: X},
 			{K: term.KConst, Val: int64(1), Lit: "1", Ty: X}, {K: term.KConst, Val: int64(-1), Lit: "-1", Ty: X},
 			{K: term.KConst, Val: "s", Lit: `"s"`, Ty: X}, {K: term.KConst, Val: true, Lit: "true", Ty: X},
-			{K: term.KConst, Val: []int64{1, 2}, Lit: "(1 2)", Ty: X},
+			{K: term.KConst, Val: []int64{1, -2, 3}, Lit: "(1 -2 3)", Ty: X},
 		}
 	} else {
 		a.Leaves[X] = []*term.Term{{K: term.KVar, Name: "a", Ty: X}}
@@ -74,6 +74,16 @@ func c15(r *rep.Run) {
 	g3 := term.NewGen(c15Alphabet(false, c15AllBin))
 	for _, t := range g3.UpTo([]term.Ty{X}, aliasMax) {
 		progs = append(progs, t)
+	}
+	// list literals of every shape next to every kind of neighbour
+	for _, l := range []*term.Term{term.Const([]int64{}), term.Const([]int64{-1}), term.Const([]int64{-1, -2}), term.Const([]int64{3, -2, 7}), term.Const([]string{"s", "t u"}), term.Const([]string{"-1", "a"})} {
+		a := term.Var("a", X)
+		for _, t := range []*term.Term{
+			term.Op("f", X, l), term.Op("g", X, a, l), term.Op("g", X, l, term.Const(int64(-1))), term.Op("=", X, a, l), term.Op("-", X, a, term.Op("g", X, term.Const(int64(-1)), l)),
+			term.If(term.Op("g", X, a, l), l, term.Op("-", X, term.Const(int64(-1)), term.Const(int64(-1)))),
+		} {
+			progs = append(progs, t.Clone())
+		}
 	}
 	r.Cov["trees_full"], r.Cov["trees_shape"], r.Cov["trees_alias"] = nFull, nShape, len(progs)-nFull-nShape
 
